@@ -293,3 +293,28 @@ VARIANTS += [
     ("C14-interval-state-abs", "C14", IV, "        return start, end, self._absolute\n", "        return start, end, False\n", "STATE-COMPLETE"),
     ("C14-fixed-initargs", "C14", TZ, "        return self._offset, self._name", "        return self._offset, None", "STATE-COMPLETE"),
 ]
+
+RSC = "rust/src/constants.rs"
+VARIANTS += [
+    ("C15-clean", "C15", None, "", "", None),
+    ("C15-offsets-entry", "C15", CONST, "    (-1, 0, 31, 59, 90, 120, 151, 181, 212, 243, 273, 304, 334, 365),", "    (-1, 0, 31, 59, 90, 120, 151, 181, 212, 243, 273, 303, 334, 365),", "TABLES.prefix"),
+    ("C15-dow-table", "C15", CONST, "DAY_OF_WEEK_TABLE = (0, 3, 2, 5, 0, 3, 5, 1, 4, 6, 2, 4)", "DAY_OF_WEEK_TABLE = (0, 3, 2, 5, 0, 3, 5, 1, 4, 6, 2, 5)", "TABLES.dow"),
+    ("C15-100y", "C15", CONST, "    (76 * DAYS_PER_N_YEAR + 24 * DAYS_PER_L_YEAR) * SECS_PER_DAY,", "    (75 * DAYS_PER_N_YEAR + 25 * DAYS_PER_L_YEAR) * SECS_PER_DAY,", "TABLES.secs"),
+    ("C15-rs-const", "C15", RSC, "pub const DAY_OF_WEEK_TABLE: [u32; 12] = [0, 3, 2, 5, 0, 3, 5, 1, 4, 6, 2, 4];", "pub const DAY_OF_WEEK_TABLE: [u32; 12] = [0, 3, 2, 5, 0, 3, 5, 1, 4, 6, 3, 4];", "TABLES.py-rs"),
+    ("C15-py-leap", "C15", PYH, "    return year % 4 == 0 and (year % 100 != 0 or year % 400 == 0)", "    return year % 4 == 0 and (year % 100 != 0 or year % 1000 == 0)", "FORMULA.is_leap"),
+    ("C15-rs-leap", "C15", RSHH, "    year % 4 == 0 && (year % 100 != 0 || year % 400 == 0)", "    year % 4 == 0 && year % 100 != 0", "SIBLING.is_leap"),
+    ("C15-py-p", "C15", PYH, "        return y + y // 4 - y // 100 + y // 400", "        return y + y // 4 - y // 100 + y // 40", "FORMULA.p"),
+    ("C15-rs-long-year", "C15", RSHH, "    (p(year) % 7 == 4) || (p(year - 1) % 7 == 3)", "    (p(year) % 7 == 4) || (p(year - 1) % 7 == 4)", "SIBLING.is_long_year"),
+    ("C15-py-weekday", "C15", PYH, "    if month < 3:\n        year -= 1\n\n    w = (", "    if month < 2:\n        year -= 1\n\n    w = (", "FORMULA.week_day"),
+    ("C15-rs-weekday", "C15", RSHH, "let y: i32 = year - i32::from(month < 3);", "let y: i32 = year - i32::from(month < 4);", "SIBLING.week_day"),
+    ("C15-py-daynumber", "C15", PYH, "        + (month * 306 + 5) // 10", "        + (month * 306 + 4) // 10", "FORMULA.day_number"),
+    ("C15-rs-daynumber", "C15", RSHH, "let m = i32::from((month + 9) % 12);", "let m = i32::from((month + 8) % 12);", "SIBLING.day_number"),
+    ("C15-py-localtime-shift", "C15", PYH, "        seconds -= 10957 * SECS_PER_DAY\n        year += 30  # == 2000", "        seconds -= 10958 * SECS_PER_DAY\n        year += 30  # == 2000", "LOCALTIME.prefix"),
+    ("C15-rs-localtime-shift", "C15", RSHH, "        year -= 370; // == 1600", "        year -= 371; // == 1600", "SIBLING.local_time"),
+    ("C15-py-localtime-leapflag", "C15", PYH, "        year += 4\n        leap_year = 1  # 4-year, non century aligned", "        year += 4\n        leap_year = 0  # 4-year, non century aligned", "LOCALTIME.chunks"),
+    ("C15-rs-localtime-step", "C15", RSHH, "        year += 100;\n", "        year += 10;\n", "SIBLING.local_time"),
+    ("C15-day-of-year", "C15", DATE, "return (275 * self.month) // 9 - k * ((self.month + 9) // 12) + self.day - 30", "return (275 * self.month) // 9 - k * ((self.month + 9) // 12) + self.day - 31", "TABULATE.day_of_year"),
+    ("C15-quarter", "C15", DATE, "        return math.ceil(self.month / 3)", "        return math.ceil(self.month / 4)", "TABULATE.quarter"),
+    ("C15-days-in-month", "C15", DATE, "return calendar.monthrange(self.year, self.month)[1]", "return calendar.monthrange(self.year, self.month)[0]", "DELEGATE"),
+    ("C15-weekday-enum", "C15", "src/pendulum/day.py", "    MONDAY = 0\n    TUESDAY = 1", "    MONDAY = 1\n    TUESDAY = 0", "TABLES.enum"),
+]
